@@ -5,6 +5,8 @@ use std::io::{BufRead, Write};
 use std::panic;
 
 mod fams;
+#[allow(unused_imports)]
+pub(crate) use fams::*;
 mod util;
 
 fn dispatch(kind: &str, args: &[&str]) -> String {
